@@ -6,10 +6,12 @@ import json, os, subprocess, concurrent.futures as cf
 import vlib
 
 
-def parse_cases(out, tag="CASE"):
+def parse_cases(out, tag="CASE", limit=40000):
     pre = '<<"%s", ' % tag
     cases = []
     for line in out.splitlines():
+        if len(cases) >= limit:      # (an export far beyond what can be executed: keep memory bounded)
+            break
         if line.startswith(pre) and line.endswith(">>"):
             try:
                 cases.append(json.loads(json.loads(line[len(pre):-2])))
@@ -48,26 +50,57 @@ def run_worker(ctx, binary, engine, cases, nshards=None, args=(), timeout=900, e
     return outs
 
 
-def judge(ctx, module, cfg, traces, timeout=1200, extra_env=None):
-    """Runs the TLA+ trace module on every trace file in parallel (one single-worker TLC each).
+def judge(ctx, module, cfg, traces, timeout=1200, extra_env=None, chunk=30000):
+    """Runs the TLA+ trace module on every trace file in parallel (single-worker TLC runs with a bounded heap).
+    A long trace is judged in pieces that start at "reset" lines (TLC holds the whole piece in memory).
     Returns a list of result records (done, bad, div, ...) in the order of traces."""
+    def pieces(tp):
+        nlines = sum(1 for _ in open(tp))
+        if nlines <= chunk:
+            return [tp], nlines
+        out, cur, n, k = [], None, 0, 0
+        for line in open(tp):
+            if cur is None or (n >= chunk and line.startswith('{"case":') and '"e":"reset"' in line[:40]):
+                if cur is not None:
+                    cur.close()
+                k += 1
+                name = "%s.part%d" % (tp, k)
+                out.append(name)
+                cur, n = open(name, "w"), 0
+            cur.write(line)
+            n += 1
+        if cur is not None:
+            cur.close()
+        return out, nlines
+
     def one(i):
         tp = traces[i]
-        rp = tp + ".result.json"
-        cwd = ctx.specdir("j%d" % i)
-        env = {"VERIF_TRACE": tp, "VERIF_RESULT": rp}
-        if extra_env:
-            env.update(extra_env)
-        res = ctx.tlc(module, cfg, workers=1, timeout=timeout, cwd=cwd, env=env, count=False)
-        if not os.path.exists(rp):
-            raise vlib.Inconclusive("trace judge %s produced no result for %s: %s" % (
-                module, os.path.basename(tp), res.error or res.invariant or res.out[-1500:]))
-        with open(rp) as f:
-            r = json.loads(f.readline())
-        nlines = sum(1 for _ in open(tp))
-        if r.get("done") != nlines:
-            raise vlib.Inconclusive("trace judge consumed %s of %d lines of %s" % (r.get("done"), nlines, tp))
-        return r
+        parts, nlines = pieces(tp)
+        total = None
+        for j, part in enumerate(parts):
+            rp = part + ".result.json"
+            cwd = ctx.specdir("j%d" % i)
+            env = {"VERIF_TRACE": part, "VERIF_RESULT": rp}
+            if extra_env:
+                env.update(extra_env)
+            res = ctx.tlc(module, cfg, workers=1, timeout=timeout, cwd=cwd, env=env, count=False, heap="3g")
+            if not os.path.exists(rp):
+                raise vlib.Inconclusive("trace judge %s produced no result for %s: %s" % (
+                    module, os.path.basename(part), res.error or res.invariant or res.out[-1500:]))
+            with open(rp) as f:
+                r = json.loads(f.readline())
+            if total is None:
+                total = r
+            else:
+                total["done"] += r["done"]
+                total["bad"] += r["bad"]
+                if "div" in r:
+                    total["div"] = total.get("div", []) + r["div"]
+            if part != tp:
+                os.remove(part)
+        if total.get("done") != nlines:
+            raise vlib.Inconclusive("trace judge consumed %s of %d lines of %s" % (total.get("done"), nlines, tp))
+        return total
 
     with cf.ThreadPoolExecutor(max_workers=vlib.NCPU) as ex:
         return list(ex.map(one, range(len(traces))))
